@@ -23,6 +23,7 @@ type Variant struct {
 	Note            string `json:"note,omitempty"`
 	Edits           []Edit `json:"edits"`
 	RegenGrammar    bool   `json:"regen_grammar,omitempty"`
+	Patch           string `json:"patch,omitempty"` // unified diff, path relative to /verif (a seeded change of /verif/seeded)
 	path            string
 }
 
@@ -49,6 +50,11 @@ func loadVariant(path string) (*Variant, error) {
 // Overlay builds the overlay map for this variant against the tree in dir.
 func (v *Variant) Overlay(dir string) (map[string][]byte, error) {
 	ov := map[string][]byte{}
+	if v.Patch != "" {
+		if err := v.applyPatch(dir, ov); err != nil {
+			return nil, err
+		}
+	}
 	for _, e := range v.Edits {
 		full := filepath.Join(dir, e.File)
 		src, ok := ov[full]
@@ -247,4 +253,50 @@ func cmdSelftest(args []string) int {
 		return 1
 	}
 	return 0
+}
+
+
+// applyPatch applies the unified diff to scratch copies of the files it names and puts the results in ov.
+func (v *Variant) applyPatch(dir string, ov map[string][]byte) error {
+	pf := v.Patch
+	if !filepath.IsAbs(pf) {
+		pf = filepath.Join(verifDir(), pf)
+	}
+	diff, err := os.ReadFile(pf)
+	if err != nil {
+		return err
+	}
+	var files []string
+	for _, ln := range strings.Split(string(diff), "\n") {
+		if strings.HasPrefix(ln, "+++ b/") {
+			files = append(files, strings.TrimSpace(strings.TrimPrefix(ln, "+++ b/")))
+		}
+	}
+	if len(files) == 0 {
+		return fmt.Errorf("%s: patch names no file", v.ID)
+	}
+	tmp, err := os.MkdirTemp("", "plverif-patch-")
+	if err != nil {
+		return err
+	}
+	defer os.RemoveAll(tmp)
+	for _, f := range files {
+		dst := filepath.Join(tmp, f)
+		os.MkdirAll(filepath.Dir(dst), 0o755)
+		if b, err := os.ReadFile(filepath.Join(dir, f)); err == nil {
+			os.WriteFile(dst, b, 0o644)
+		}
+	}
+	cmd := exec.Command("patch", "-p1", "-s", "-f", "--no-backup-if-mismatch", "-d", tmp, "-i", pf)
+	if out, err := cmd.CombinedOutput(); err != nil {
+		return fmt.Errorf("%s: patch does not apply: %s", v.ID, strings.TrimSpace(string(out)))
+	}
+	for _, f := range files {
+		b, err := os.ReadFile(filepath.Join(tmp, f))
+		if err != nil {
+			return err
+		}
+		ov[filepath.Join(dir, f)] = b
+	}
+	return nil
 }
